@@ -596,7 +596,7 @@ func init() {
 	fw.Register(&fw.Property{
 		ID:          "C15",
 		Level:       "exploration",
-		Rule:        "seeded programs of 5..60 operations (Set, SetWithLog with arbitrary caller-side OldOID, SaveRef, Delete, Rename, Copy, Filter/FilterKey with prefix and not-prefix lists, ListRemoteRefs/ListHeads, DeleteAllRemoteRefs, RenameAllRemoteRefs, DeleteTransactionRefs) over an alphabet of names that are prefixes of one another and contain '_', '%' and case variants, on the SQL store (memory and file) and the file store (restricted to what it implements); after EVERY step every name's value and full log (newest first) and the requested listing are compared with a map + per-name append-only log model; distinct_nontrivial = distinct programs with >=3 operations",
+		Rule:        "seeded programs of 5..60 operations (Set, SetWithLog with arbitrary caller-side OldOID, SaveRef, Delete, Rename, Copy, Filter/FilterKey with prefix and not-prefix lists, ListRemoteRefs/ListHeads, DeleteAllRemoteRefs, RenameAllRemoteRefs, DeleteTransactionRefs) over an alphabet of names that are prefixes of one another and contain '_', '%' and case variants, with remotes named like pieces of the namespace (remote, remotes, s, e), on the SQL store (memory and file) and the file store (restricted to what it implements); after EVERY step every name's value and full log (newest first) and the requested listing are compared with a map + per-name append-only log model; distinct_nontrivial = distinct programs with >=3 operations",
 		Assumptions: []string{"rename/copy onto an existing name and copy of a missing name must fail without effect", "file store: only directory prefixes, Copy only from logged refs, OldOID supplied by SaveRef as wrgl does"},
 		Gen: func(tier string, seed int64) []fw.Case {
 			l := fw.NewCaseList("C15", tier, seed)
